@@ -19,6 +19,12 @@ Sub-check of C08. Statements only; the proofs go through `Lemmas/MockClient.lean
   specification), `Spec.groups` (orders per instrument), `Spec.SSys` (the protocol without exchange
   state, timers or channel buffer).
 
+Exchange time. `update_time_exchange` computes `time_request.checked_add_signed(latency / 2)
+.unwrap_or(time_request)`: `stampTime latency t` is `t + latency / 2` when that is `≤ maxTime`
+(chrono's `DateTime::<Utc>::MAX_UTC`, 8210266876799999 ms) and `t` itself otherwise. The C08 ledger
+(`MockExchange.step`, not edited) adds `latency / 2` unconditionally; `XState.step` feeds it the
+request time `ledgerTime latency t = stampTime latency t - latency / 2`, which is `t` in range.
+
 Hypotheses, used only where stated:
 * `c.base.wf = true` — the C08 well-formedness of the configuration (every initial balance has
   `total = free`, instrument assets have balances); outside it `open_order` panics, the exchange
@@ -32,13 +38,56 @@ open BarterModel.MockExchange BarterModel.MockClient
 
 /-! ## 1. The exchange with its configured orders -/
 
-/-- The ledger part of the extended exchange evolves exactly as the C08 exchange and broadcasts the
-same notifications, request by request and over whole histories: every C08 theorem applies to it. -/
+/-- The ledger part of the extended exchange evolves exactly as the C08 exchange fed the ledger time
+of each request, and broadcasts the same notifications, request by request and over whole histories:
+every C08 theorem applies to it. (Conjuncts 1-2 are the definition of `XState.step` read back —
+bookkeeping; the third is an induction.) -/
 theorem ledger_is_C08 (x : XState) (t : Int) (rq : Request) (ops : List (Int × Request)) :
+    (x.step t rq).1.base = (MockExchange.step x.base (ledgerTime x.base.latency t) rq).1 ∧
+    (x.step t rq).2.2 = (MockExchange.step x.base (ledgerTime x.base.latency t) rq).2.2 ∧
+    (x.run ops).base = MockExchange.run x.base (ledgerOps x.base.latency ops) :=
+  ⟨(step_base x t rq).1, (step_base x t rq).2, xrun_base x ops⟩
+
+/-- The ledger time IS the request time whenever `t + latency / 2` is a `DateTime<Utc>`, and it is
+`t - latency / 2` beyond: in range nothing is shifted. -/
+theorem ledger_time_cases (l : Nat) (t : Int) :
+    (t + ((l / 2 : Nat) : Int) ≤ maxTime → ledgerTime l t = t) ∧
+    (maxTime < t + ((l / 2 : Nat) : Int) → ledgerTime l t = t - ((l / 2 : Nat) : Int)) := by
+  unfold ledgerTime stampTime
+  constructor <;> intro h <;> split <;> omega
+
+/-- … hence for requests in chrono's range (every request time plus half a latency is `≤ maxTime`)
+the ledger part is the C08 exchange on the very same requests — the statement `ledger_is_C08` had
+before the `unwrap_or(time_request)` fallback was modelled. -/
+theorem ledger_is_C08_in_range (x : XState) (t : Int) (rq : Request) (ops : List (Int × Request))
+    (ht : t + ((x.base.latency / 2 : Nat) : Int) ≤ maxTime)
+    (hops : ∀ op ∈ ops, op.1 + ((x.base.latency / 2 : Nat) : Int) ≤ maxTime) :
     (x.step t rq).1.base = (MockExchange.step x.base t rq).1 ∧
     (x.step t rq).2.2 = (MockExchange.step x.base t rq).2.2 ∧
-    (x.run ops).base = MockExchange.run x.base ops :=
-  ⟨(step_base x t rq).1, (step_base x t rq).2, xrun_base x ops⟩
+    (x.run ops).base = MockExchange.run x.base ops := by
+  have e : ledgerOps x.base.latency ops = ops := by
+    unfold ledgerOps
+    conv => rhs; rw [← List.map_id ops]
+    apply List.map_congr_left
+    intro op hop
+    rw [(ledger_time_cases _ _).1 (hops op hop)]; rfl
+  have h := ledger_is_C08 x t rq ops
+  rw [(ledger_time_cases _ _).1 ht, e] at h
+  exact h
+
+/-- WITNESS at the excluded point (corpus case `max_clock_falls_back`, latency 100, request time
+8210266876799950 = `maxTime` - 49): the code's exchange clock stays at the request time, the C08
+ledger on the same request would show 8210266876800000 — not a `DateTime<Utc>`. -/
+theorem ledger_differs_past_max :
+    let x : XState := XState.init { base := { latency := 100, fee := 0, init := [(5, 5), (50, 50)], instruments := [⟨0, 1⟩] },
+                                    cap := 4, groups := [] }
+    (x.step 8210266876799950 .fetchBalances).1.base.time = 8210266876799950 ∧
+    (MockExchange.step x.base 8210266876799950 .fetchBalances).1.time = 8210266876800000 ∧
+    (x.step 8210266876799950 .fetchBalances).2.1 =
+      .balances [⟨5, 5, 8210266876799950⟩, ⟨50, 50, 8210266876799950⟩] ∧
+    (x.step 8210266876799949 .fetchBalances).2.1 =
+      .balances [⟨5, 5, 8210266876799999⟩, ⟨50, 50, 8210266876799999⟩] := by
+  decide +kernel
 
 /-- Market orders never rest: whatever the exchange is asked, for every history, the cancelled
 orders stay exactly as they were and the open orders keep everything but their time stamp. -/
@@ -47,29 +96,83 @@ theorem orders_never_change (x : XState) (ops : List (Int × Request)) :
     (x.run ops).opens.map OpenOrd.untimed = x.opens.map OpenOrd.untimed :=
   ⟨xrun_cancels x ops, xrun_opens_untimed x ops⟩
 
+/-- `update_time_exchange`'s `checked_add_signed(latency / 2).unwrap_or(time_request)`: the exchange
+time of a request stamped `t` is `t + latency / 2` if that is at most chrono's largest
+`DateTime<Utc>` (`maxTime`), and `t` itself otherwise; it never lies before the request time nor
+beyond `maxTime` (for a request time that is itself a `DateTime<Utc>`). -/
+theorem exchange_time_cases (l : Nat) (t : Int) :
+    (t + ((l / 2 : Nat) : Int) ≤ maxTime → stampTime l t = t + ((l / 2 : Nat) : Int)) ∧
+    (maxTime < t + ((l / 2 : Nat) : Int) → stampTime l t = t) ∧
+    t ≤ stampTime l t ∧ (t ≤ maxTime → stampTime l t ≤ maxTime) := by
+  unfold stampTime
+  refine ⟨fun h => ?_, fun h => ?_, ?_, fun h => ?_⟩ <;> split <;> omega
+
+/-- WITNESS of the fallback (latency 100): one millisecond decides — 8210266876799949 is still
+stamped half a latency later (= `maxTime`), 8210266876799950 keeps its own time; at `maxTime` itself
+every positive half-latency falls back, and a latency of 0 or 1 never does. -/
+theorem exchange_time_falls_back_at_max :
+    stampTime 100 8210266876799949 = 8210266876799999 ∧ stampTime 100 8210266876799950 = 8210266876799950 ∧
+    stampTime 2 maxTime = maxTime ∧ stampTime 1 maxTime = maxTime ∧
+    stampTime 20000000000000000 1000 = 1000 := by
+  decide +kernel
+
+/-- The specification's exchange time (`Spec.exchTime`, written on its own) is the code's. -/
+theorem spec_exchange_time (c : XCfg) (t : Int) : Spec.exchTime c t = stampTime c.base.latency t :=
+  exchTime_eq c t
+
 /-- `update_time_exchange`: processing a request stamped `t` puts the exchange time
-`t + latency / 2` on the exchange clock, on every balance and on every open order — not on the
-cancelled orders. -/
+`stampTime latency t` (`exchange_time_cases`: `t + latency / 2`, or `t` past chrono's range) on the
+exchange clock, on every balance and on every open order — not on the cancelled orders. (That the
+open orders carry the stamp is the definition of `XState.step` read back — bookkeeping; the clock and
+balance parts go through the C08 ledger.) -/
 theorem update_time_stamps (x : XState) (t : Int) (rq : Request) :
-    let te : Int := t + ((x.base.latency / 2 : Nat) : Int)
+    let te : Int := stampTime x.base.latency t
     let x' := (x.step t rq).1
     x'.base.time = te ∧ (∀ b ∈ x'.base.balances, b.time = te) ∧ (∀ o ∈ x'.opens, o.time = te) ∧
     x'.cancels = x.cancels := by
-  have hte : (updateTime x.base t).time = t + ((x.base.latency / 2 : Nat) : Int) := rfl
+  have hte := updateTime_ledgerTime x.base t
   refine ⟨?_, ?_, ?_, step_cancels x t rq⟩
   · rw [(step_base x t rq).1, step_time, hte]
-  · rw [(step_base x t rq).1, ← hte]; exact step_balance_times x.base t rq
+  · rw [(step_base x t rq).1, ← hte]; exact step_balance_times x.base _ rq
   · intro o ho
-    rw [step_opens, hte] at ho
+    rw [step_opens] at ho
     simp only [stampOpens, List.mem_map] at ho
     obtain ⟨o0, _, rfl⟩ := ho
     rfl
 
+/-- … in chrono's range that is `t + latency / 2` (the statement `update_time_stamps` had before the
+fallback was modelled, now with its hypothesis). -/
+theorem update_time_stamps_in_range (x : XState) (t : Int) (rq : Request)
+    (ht : t + ((x.base.latency / 2 : Nat) : Int) ≤ maxTime) :
+    let te : Int := t + ((x.base.latency / 2 : Nat) : Int)
+    let x' := (x.step t rq).1
+    x'.base.time = te ∧ (∀ b ∈ x'.base.balances, b.time = te) ∧ (∀ o ∈ x'.opens, o.time = te) ∧
+    x'.cancels = x.cancels := by
+  have h := update_time_stamps x t rq
+  rw [(exchange_time_cases _ _).1 ht] at h
+  exact h
+
 /-- After any non-empty history the open orders are the initial ones, each carrying the exchange
-time of the LAST request (also when an earlier request carried a later time). -/
+time of the LAST request (also when an earlier request carried a later time): `t + latency / 2`, or
+`t` itself when that is past chrono's range. -/
 theorem open_orders_carry_last_request_time (x : XState) (ops : List (Int × Request)) (op : Int × Request) :
-    (x.run (ops ++ [op])).opens = x.opens.map fun o => { o with time := op.1 + ((x.base.latency / 2 : Nat) : Int) } :=
+    (x.run (ops ++ [op])).opens = x.opens.map fun o => { o with time := stampTime x.base.latency op.1 } :=
   xrun_opens_snoc x ops op
+
+/-- … in chrono's range. -/
+theorem open_orders_carry_last_request_time_in_range (x : XState) (ops : List (Int × Request)) (op : Int × Request)
+    (ht : op.1 + ((x.base.latency / 2 : Nat) : Int) ≤ maxTime) :
+    (x.run (ops ++ [op])).opens = x.opens.map fun o => { o with time := op.1 + ((x.base.latency / 2 : Nat) : Int) } := by
+  rw [open_orders_carry_last_request_time, (exchange_time_cases _ _).1 ht]
+
+/-- WITNESS at the excluded point: a configured open order after a request stamped `maxTime` - 49
+under latency 100 carries the request time itself. -/
+theorem open_order_time_falls_back :
+    ((XState.init { base := { latency := 100, fee := 0, init := [(5, 5)], instruments := [] }, cap := 4,
+                    groups := [(0, [⟨⟨0, 0, 1, .buy, .limit, 10, 1, 0⟩, .open 1 10 0⟩])] }).run
+        [(0, .fetchBalances), (8210266876799950, .fetchOrdersOpen)]).opens =
+      [⟨⟨0, 0, 1, .buy, .limit, 10, 1, 0⟩, 1, 8210266876799950, 0⟩] := by
+  decide +kernel
 
 /-- `AccountState::from` looks at the orders only: the instrument an `InstrumentAccountSnapshot` is
 filed under (and the split into snapshots) has no influence. -/
@@ -90,7 +193,8 @@ theorem init_keeps_configured_orders {c : XCfg} (h : Spec.distinctCids c) :
   · rw [init_cancels_byCid h]; exact List.mergeSort_perm _ _
 
 /-- The order maps are keyed by the client order id ALONE: inserting an order whose `cid` is already
-present — whatever its instrument or strategy — replaces the earlier order, which is gone. -/
+present — whatever its instrument or strategy — replaces the earlier order, which is gone. (A generic
+fact of `insertKey` — bookkeeping; what it means for a configuration is `cid_collision_loses_an_order`.) -/
 theorem cid_collision_last_wins {m : List OpenOrd} (hs : KeySorted (·.head.cid) m) {a v : OpenOrd}
     (ha : a ∈ m) (hk : a.head.cid = v.head.cid) (hne : a ≠ v) :
     a ∉ insertKey (·.head.cid) v m ∧ v ∈ insertKey (·.head.cid) v m :=
@@ -160,13 +264,14 @@ theorem answers_refine_spec {c : XCfg} (hc : c.base.wf = true) (hd : Spec.distin
   step_conforms hc hd hist t rq
 
 /-- In particular `account_snapshot` / `fetch_open_orders` return the configured open (and cancelled)
-orders for every later history. -/
+orders for every later history, the open ones restamped with the exchange time of the request
+(`Spec.exchTime`: half a latency later, or the request time past chrono's range). -/
 theorem configured_orders_reported_forever {c : XCfg} (hd : Spec.distinctCids c)
     (hist : List (Int × Request)) (t : Int) (rq : Request) :
     let x' := (((XState.init c).run hist).step t rq).1
-    x'.opens = Spec.openAt c (exchangeTime c.base t) ∧
+    x'.opens = Spec.openAt c (Spec.exchTime c t) ∧
     x'.cancels = Spec.byCid (·.head.cid) (Spec.initialCancelled c) ∧
-    x'.groups = Spec.groups (Spec.ordersAt c (exchangeTime c.base t)) := by
+    x'.groups = Spec.groups (Spec.ordersAt c (Spec.exchTime c t)) := by
   obtain ⟨h1, h2, h3⟩ := step_orders hd hist t rq
   exact ⟨h1, h2, by rw [groups_eq_spec, h3]⟩
 
@@ -181,8 +286,9 @@ def Reach (c : XCfg) (w : Nat) (s : Sys) : Prop := ∃ ops, s = (Sys.init c w).r
 theorem reach_cfg {c : XCfg} {w : Nat} {s : Sys} (h : Reach c w s) : s.cfg = c := by
   obtain ⟨ops, rfl⟩ := h; exact run_cfg _ ops
 
-/-- The exchange never panics and its task's state is the initial exchange run over the requests it
-has processed. -/
+/-- WHILE the exchange task exists, its state is the initial exchange run over the requests it has
+processed, and it is well formed (so its next `open_order` cannot panic). That it DOES still exist
+is `exchange_never_dies`. -/
 theorem exchange_state_is_run {c : XCfg} (hc : c.base.wf = true) {w : Nat} {s : Sys} (h : Reach c w s) :
     ∀ x, s.exch = some x → x = (XState.init c).run (plogOps s.plog) ∧ WF x.base := by
   obtain ⟨ops, rfl⟩ := h
@@ -191,6 +297,25 @@ theorem exchange_state_is_run {c : XCfg} (hc : c.base.wf = true) {w : Nat} {s : 
   have := hi.exch_run x hx
   rw [run_cfg] at this
   exact ⟨this, hi.exch_wf x hx⟩
+
+/-- The exchange never panics: from a well-formed configuration (no hypothesis on the client order
+ids) the exchange task exists after every history that does not abort it — whatever is called, with
+whatever arguments, in whatever interleaving. -/
+theorem exchange_never_dies {c : XCfg} (hc : c.base.wf = true) (w : Nat) (ops : List Op)
+    (hno : Op.exchStop ∉ ops) : ((Sys.init c w).run ops).exch.isSome = true :=
+  run_alive (Inv.init hc w) (Settled.init c w) rfl ops hno
+
+/-- WITNESS outside the hypothesis ("a panic kills the task silently"): instrument 0 sells asset 5,
+which has no balance — `open_order`'s `expect` fires, the exchange task is gone, the caller (and every
+later caller) gets `ExchangeOffline` at once; nothing else tells. Tied to the code by correspondence
+only (corpus case `panic_kills_exchange`); the specification is silent on ill-formed configurations. -/
+theorem ill_formed_configuration_kills_exchange :
+    let c : XCfg := { base := { latency := 0, fee := 0, init := [(50, 50)], instruments := [⟨5, 0⟩] }, cap := 4, groups := [] }
+    let s := (Sys.init c 1).run [.call 0 (.open ⟨0, 1, 70, .sell, 10, 2, .market⟩ 0)]
+    c.base.wf = false ∧ s.exch.isNone = true ∧
+    s.out.map (fun d => (d.worker, d.call, d.elapsed, d.out)) = [(0, 0, 0, .offline)] ∧
+    ((s.run [.call 0 .balances]).out.map fun d => (d.worker, d.call, d.elapsed, d.out)) = [(0, 1, 0, .offline)] := by
+  decide +kernel
 
 /-- FIFO: the requests the exchange has processed, followed by those still in the channel, are the
 requests that were sent, in the order of sending — nothing lost, duplicated or overtaken while the
@@ -203,7 +328,8 @@ theorem requests_seen_in_send_order {c : XCfg} (hc : c.base.wf = true) {w : Nat}
   obtain ⟨lost, h1, h2⟩ := hi.fifo
   exact ⟨lost, h1, h2, hi.dead_queue⟩
 
-/-- The client stamps a request with the value of ITS clock function at the moment of the call … -/
+/-- The client stamps a request with the value of ITS clock function at the moment of the call …
+(one unfolding of `Sys.call` — bookkeeping; the result is `request_carries_callers_clock`). -/
 theorem call_stamps_clock (s : Sys) (w : Nat) (c : Call) :
     (s.call w c).calls = s.calls ++ [⟨w, s.clock, s.now, c, s.exch.isSome⟩] ∧
     (s.exch.isSome → (s.call w c).queue = s.queue ++ [⟨s.calls.length, s.clock, c.wire⟩]) := by
@@ -225,19 +351,19 @@ theorem request_carries_callers_clock {c : XCfg} (hc : c.base.wf = true) {w : Na
   · obtain ⟨cr, h1, h2, h3, _⟩ := hi.issued_p p hp; exact ⟨cr, h1, h2.symm, h3.symm⟩
   · obtain ⟨cr, h1, h2, h3, _⟩ := hi.issued_q m hm; exact ⟨cr, h1, h2.symm, h3.symm⟩
 
-/-- NO CROSS-TALK. Whenever a worker's call returns with a response (in any reachable state, however
-many calls of other workers are in flight), that response is what the exchange produced for THAT
-worker's own request — the request issued by that worker (`cr.worker = d.worker`), of the kind it
-called (`cr.what = d.what`), stamped with its clock — in the state the exchange had after the
-requests it processed before; it conforms to the specification's history-only answer; it arrived no
-earlier than one latency after the exchange saw the request; `elapsed` is measured from the call. -/
-theorem response_is_answer_to_own_request {c : XCfg} (hc : c.base.wf = true) (hd : Spec.distinctCids c)
+/-- NO CROSS-TALK, from a well-formed configuration alone (colliding client order ids allowed).
+Whenever a worker's call returns with a response (in any reachable state, however many calls of
+other workers are in flight), that response is what the exchange produced for THAT worker's own
+request — the request issued by that worker (`cr.worker = d.worker`), of the kind it called
+(`cr.what = d.what`), stamped with its clock — in the state the exchange had after the requests it
+processed before; it arrived no earlier than one latency after the exchange saw the request;
+`elapsed` is measured from the call. -/
+theorem response_is_to_own_request {c : XCfg} (hc : c.base.wf = true)
     {w : Nat} {s : Sys} (h : Reach c w s) (d : Done) (hdn : d ∈ s.out) (r : XResp) (hr : d.out = .answered r) :
     ∃ (k : Nat) (p : PRec) (cr : CRec),
       s.plog[k]? = some p ∧ p.call = d.call ∧ s.calls[d.call]? = some cr ∧
       cr.worker = d.worker ∧ cr.what = d.what ∧ p.t = cr.t ∧ p.rq = cr.what.wire ∧
       r = (((XState.init c).run (plogOps (s.plog.take k))).step cr.t cr.what.wire).2.1 ∧
-      Spec.Conforms r (Spec.answer c (plogOps (s.plog.take k)) cr.t cr.what.wire) ∧
       p.at_ + c.base.latency ≤ s.now ∧ cr.at_ ≤ p.at_ ∧ d.elapsed = s.now - cr.at_ ∧
       c.base.latency ≤ d.elapsed := by
   have hcfg := reach_cfg h
@@ -252,13 +378,29 @@ theorem response_is_answer_to_own_request {c : XCfg} (hc : c.base.wf = true) (hd
   injection hq1 with hq1; subst hq1
   obtain ⟨ho1, _⟩ := hi.plog_ok k _ (List.getElem?_eq_getElem hk)
   rw [hcfg] at ho1
-  have hconf := (step_conforms hc hd (plogOps (((Sys.init c w).run ops).plog.take k)) cr.t cr.what.wire).1
   have hsent := hi.sent_p _ hp cr (by rw [hp1]; exact hc1)
   simp only [Sys.latency, hcfg] at hp4
-  refine ⟨k, _, cr, List.getElem?_eq_getElem hk, hp1, hc1, hc2, hc3, hq2.symm, hq3.symm, ?_, ?_, hp4, hsent, hc4, ?_⟩
+  refine ⟨k, _, cr, List.getElem?_eq_getElem hk, hp1, hc1, hc2, hc3, hq2.symm, hq3.symm, ?_, hp4, hsent, hc4, ?_⟩
   · rw [← hp2, ho1, hq2, hq3]
-  · rw [← hp2, ho1, hq2, hq3] at *; exact hconf
   · rw [hc4]; omega
+
+/-- … and with distinct client order ids that response conforms to the specification's history-only
+answer (only this conjunct needs `Spec.distinctCids`; corollary of `response_is_to_own_request` and
+`answers_refine_spec`). -/
+theorem response_is_answer_to_own_request {c : XCfg} (hc : c.base.wf = true) (hd : Spec.distinctCids c)
+    {w : Nat} {s : Sys} (h : Reach c w s) (d : Done) (hdn : d ∈ s.out) (r : XResp) (hr : d.out = .answered r) :
+    ∃ (k : Nat) (p : PRec) (cr : CRec),
+      s.plog[k]? = some p ∧ p.call = d.call ∧ s.calls[d.call]? = some cr ∧
+      cr.worker = d.worker ∧ cr.what = d.what ∧ p.t = cr.t ∧ p.rq = cr.what.wire ∧
+      r = (((XState.init c).run (plogOps (s.plog.take k))).step cr.t cr.what.wire).2.1 ∧
+      Spec.Conforms r (Spec.answer c (plogOps (s.plog.take k)) cr.t cr.what.wire) ∧
+      p.at_ + c.base.latency ≤ s.now ∧ cr.at_ ≤ p.at_ ∧ d.elapsed = s.now - cr.at_ ∧
+      c.base.latency ≤ d.elapsed := by
+  obtain ⟨k, p, cr, h1, h2, h3, h4, h5, h6, h7, h8, h9, h10, h11, h12⟩ :=
+    response_is_to_own_request hc h d hdn r hr
+  refine ⟨k, p, cr, h1, h2, h3, h4, h5, h6, h7, h8, ?_, h9, h10, h11, h12⟩
+  rw [h8]
+  exact (step_conforms hc hd (plogOps (s.plog.take k)) cr.t cr.what.wire).1
 
 /-- A call fails with `ExchangeOffline` only for one of two reasons: it was a cancel request and the
 exchange has seen it (the exchange being perfectly alive), or the exchange is gone and never
@@ -349,7 +491,9 @@ theorem subscriber_sees_contiguous_segment {c : XCfg} (hc : c.base.wf = true) {w
   obtain ⟨ops, rfl⟩ := h
   exact (reach_inv hc w ops).1.subs_ok b hb
 
-/-- `account_stream()` subscribes at the current end of the channel (`resubscribe`). -/
+/-- `account_stream()` subscribes at the current end of the channel (`resubscribe`). (The new
+subscriber is written down by `Sys.step` — bookkeeping; the content is that `settle` leaves the
+subscribers alone.) -/
 theorem subscription_starts_at_the_tail (s : Sys) (s' : Sys) (obs : Option PollObs)
     (hs : s.step .sub = some (s', obs)) :
     ∃ b, s'.subs = s.subs ++ [b] ∧ b.start = s.log.length ∧ b.pos = s.log.length ∧ b.got = [] ∧ b.ended = false := by
@@ -384,7 +528,11 @@ theorem subscription_starts_at_the_tail (s : Sys) (s' : Sys) (obs : Option PollO
 /-- Polling a stream. An ended stream stays ended. A subscriber more than the channel's capacity
 behind gets `Lagged`, which `map_while` turns into the end of the stream: it receives NOTHING more,
 not even what is still in the channel. Otherwise it is handed everything sent since its last poll,
-and the stream ends only if every sender is gone (the exchange and all sleeping notification tasks). -/
+and the stream ends only if every sender is gone (the exchange and all sleeping notification tasks).
+(The three cases of the definition of `Sys.drain` read back — bookkeeping; what a poll yields in
+terms of the requests seen is `stream_refines_spec` + `account_stream_is_fills_in_order`. Observed
+in the harness with the poll loop under `tokio::task::unconstrained`: tokio's cooperative budget
+would otherwise cut one poll at 128 values, a scheduling artefact.) -/
 theorem poll_outcome (s : Sys) (b : Sub) :
     (b.ended = true → s.drain b = (b, ⟨[], true⟩)) ∧
     (b.ended = false → s.log.length - b.pos > s.capacity →
@@ -400,11 +548,25 @@ theorem poll_outcome (s : Sys) (b : Sub) :
 /-- The capacity that counts is the least power of two `≥` the one the channel was created with
 (`broadcast::channel(3)` holds 4; `channel(1)` holds 1 — less than the two notifications of a single
 fill, so with capacity 1 every subscriber that is not polled between the balance update and the fill
-loses its stream at the first accepted order). -/
+loses its stream at the first accepted order: `capacity_one_loses_stream_at_first_fill`). (Conjunct
+1 is the definition — bookkeeping; minimality is proved.) -/
 theorem capacity_is_next_power_of_two (s : Sys) :
     s.capacity = nextPow2 s.cfg.cap ∧ s.cfg.cap ≤ s.capacity ∧
     ∃ k, s.capacity = 2 ^ k ∧ ∀ j, s.cfg.cap ≤ 2 ^ j → 2 ^ k ≤ 2 ^ j :=
   ⟨rfl, (nextPow2_spec s.cfg.cap).1, (nextPow2_spec s.cfg.cap).2⟩
+
+/-- WITNESS, capacity 1: balance update and fill are sent by one latency task in one go, so no poll
+can come between them; a subscriber present before the first accepted order is 2 > 1 behind at its
+next poll, gets `Lagged` and its stream ends having delivered NOTHING. With capacity 2 it gets both. -/
+theorem capacity_one_loses_stream_at_first_fill :
+    let c1 : XCfg := { base := { latency := 100, fee := 1/100, init := [(2, 2), (100, 100)], instruments := [⟨0, 1⟩] },
+                       cap := 1, groups := [] }
+    let ops : List Op := [.sub, .call 0 (.open ⟨0, 1, 70, .buy, 10, 2, .market⟩ 4), .adv 100, .poll 0]
+    ((Sys.init c1 1).run ops).log.length = 2 ∧
+    ((Sys.init c1 1).run ops).subs.map (fun b => (b.start, b.pos, b.got.length, b.ended)) = [(0, 0, 0, true)] ∧
+    ((Sys.init { c1 with cap := 2 } 1).run ops).subs.map (fun b => (b.start, b.pos, b.got.length, b.ended)) =
+      [(0, 2, 2, false)] := by
+  decide +kernel
 
 /-! ## 4. When the exchange is gone -/
 
